@@ -488,10 +488,12 @@ def write_audit():
         files = tree_files(root, (".lean",)) if os.path.isdir(root) else [root]
         for p in sorted(files):
             src = strip_comments(open(p).read())
-            ns = re.search(r"^namespace\s+(\S+)", src, re.M)
-            ns = ns.group(1) if ns else ""
-            for m in re.finditer(r"^theorem\s+(\S+)", src, re.M):
-                names.append(ns + "." + m.group(1))
+            ns = ""
+            for m in re.finditer(r"^(namespace|theorem)\s+(\S+)", src, re.M):
+                if m.group(1) == "namespace":
+                    ns = m.group(2)
+                else:
+                    names.append(ns + "." + m.group(2))
     body = "import Yomm2\n" + "".join("#print axioms %s\n" % n for n in names)
     path = os.path.join(LEAN, "Audit.lean")
     if not os.path.exists(path) or open(path).read() != body:
